@@ -99,3 +99,11 @@ def _f24(prop, sub, v, case):
                       'rp_area', 'cog_area')
             and v.info.get('kind') in ('ellipse', 'eannulus')
             and v.info.get('degenerate_contact') is True)
+
+
+@pred('F3b')
+def _f3b(prop, sub, v, case):
+    # polygons: one entry per 8-connected region instead of one per label;
+    # segments raises for labels that are not connected
+    return (v.aid == 'polygon_per_label' and v.info.get('disconnected') is True
+            and v.info.get('attr') in ('segments', 'polygons'))
